@@ -1,0 +1,11 @@
+//go:build verif
+
+package otr
+
+// VerifSendTLV encodes an authenticated data message that carries one TLV of
+// the given type, exactly as the conversation would send it, so that a harness
+// can present hostile but correctly MACed SMP TLVs to the peer.
+func VerifSendTLV(c *Conversation, typ uint16, data []byte) [][]byte {
+	t := tlv{typ: typ, length: uint16(len(data)), data: data}
+	return c.encode(c.generateData(nil, &t))
+}
